@@ -127,6 +127,13 @@ def p_poison(x, marker=None):
     return x * 10
 
 
+def p_sysexit(x, marker=None):
+    """A persistent target that leaves with something which is not an Exception on input 99."""
+    if x == 99:
+        raise SystemExit(3)
+    return x * 10
+
+
 # ---- C05: echo targets -----------------------------------------------------------------------------------------------
 def echo(*a, **k):
     if a and a[0] == 'POISON':
